@@ -91,6 +91,10 @@ sub vcl_fetch {
 #FASTLY fetch
   set beresp.ttl = 60s;
   set beresp.http.X-Fetched-For = req.http.X-Marker;
+  if (req.url ~ "^/esi") {
+    esi;
+    return(pass);
+  }
   return(deliver);
 }
 sub vcl_error {
@@ -114,6 +118,22 @@ sub vcl_log {
 
 // request kinds
 var reqKinds = []string{"/c1", "/c2", "/pass", "/err", "/restart", "/box"}
+
+// esiRespond: the origin answers /esi with a body that includes a fragment (the delivery resolves it while the request is
+// still being processed); every other path gets the stub's default answer
+func esiRespond(r *http.Request) *http.Response {
+	if !strings.HasPrefix(r.URL.Path, "/esi") {
+		return nil
+	}
+	body := "head <esi:include src=\"/frag\" /><esi:remove>removed</esi:remove> tail"
+	return &http.Response{
+		StatusCode: 200, Status: "200 OK", Proto: "HTTP/1.1", ProtoMajor: 1, ProtoMinor: 1,
+		Header:        http.Header{"Content-Type": {"text/html"}},
+		Body:          io.NopCloser(strings.NewReader(body)),
+		ContentLength: int64(len(body)),
+		Request:       r,
+	}
+}
 
 func serveOne(ip *interpreter.Interpreter, url, marker string) string {
 	o := sim.Observe(ip, "GET", "http://example.com"+url, [][2]string{{"X-Marker", marker}})
@@ -234,6 +254,9 @@ func expectedPluginDiags(plugins []string) []string {
 			out = append(out, "failed:"+name)
 		case "garbage":
 			out = append(out, "garbage:"+name)
+		case "missing":
+			// no such executable: one "not found" diagnostic, the other plugins are unaffected
+			out = append(out, "notfound:"+name)
 		default:
 			n := 0
 			fmt.Sscan(arg, &n)
@@ -250,6 +273,7 @@ var (
 	reFailed  = regexp.MustCompile(`"(p\d) failed`)
 	reGarbage = regexp.MustCompile(`falco-(p\d) did not respond correct message`)
 	reDiag    = regexp.MustCompile(`^p\d-\d+$`)
+	reMissing = regexp.MustCompile(`Custom linter command "falco-(p\d)" not found`)
 )
 
 func pluginDiags(r lintx.Result) []string {
@@ -258,6 +282,8 @@ func pluginDiags(r lintx.Result) []string {
 		m := d.Message
 		if x := reGarbage.FindStringSubmatch(m); x != nil {
 			out = append(out, "garbage:"+x[1])
+		} else if x := reMissing.FindStringSubmatch(m); x != nil {
+			out = append(out, "notfound:"+x[1])
 		} else if x := reFailed.FindStringSubmatch(m); x != nil {
 			out = append(out, "failed:"+x[1])
 		} else if reDiag.MatchString(m) {
@@ -448,7 +474,7 @@ func addStats(c Case, st sched.Stats, outcomes, serial int) {
 
 // raceMain is `vf c18race <kind> <items...>`: runs the scenario 'reps' times with real goroutines.
 func raceMain(args []string) int {
-	sim.InstallStub()
+	sim.InstallStub().Respond = esiRespond
 	if d := os.Getenv("VERIF_PLUGIN_DIR"); d != "" {
 		os.Setenv("PATH", d+":"+os.Getenv("PATH"))
 	}
@@ -563,6 +589,12 @@ func gen18(tier string, emit func(Case)) {
 			emit(Case{Kind: "sim", Requests: ms, Bound: nb[1]})
 		}
 	}
+	// a response whose body carries an ESI include (resolved during delivery), next to each other request kind
+	for _, other := range append([]string{"/esi"}, reqKinds...) {
+		emit(Case{Kind: "sim", Requests: []string{"/esi", other}, Bound: plan[0][1]})
+	}
+	emit(Case{Kind: "sim", Requests: []string{"/esi", "/c1", "/pass"}, Bound: plan[1][1]})
+	emit(Case{Kind: "race-sim", Requests: []string{"/esi", "/esi", "/c1", "/pass"}})
 	// auxiliary free-running -race pass over the same scenario bodies
 	for _, ms := range multisets(reqKinds, 3) {
 		emit(Case{Kind: "race-sim", Requests: ms})
@@ -592,6 +624,11 @@ func gen18(tier string, emit func(Case)) {
 	}
 	emit(Case{Kind: "plugin", Plugins: []string{nestedPrefix + "p1 2", nestedPrefix + "p2 2", nestedPrefix + "p3 1"}, Bound: pplan[1].bound})
 	emit(Case{Kind: "race-plugin", Plugins: []string{nestedPrefix + "p1 2", nestedPrefix + "p2 2"}})
+	// a plugin that is not installed (p9), first, in the middle and last
+	emit(Case{Kind: "plugin", Plugins: []string{"p9 missing", "p2 2"}, Bound: pplan[0].bound})
+	emit(Case{Kind: "plugin", Plugins: []string{"p1 1", "p9 missing"}, Bound: pplan[0].bound})
+	emit(Case{Kind: "plugin", Plugins: []string{"p1 2", "p9 missing", "p3 1"}, Bound: pplan[1].bound})
+	emit(Case{Kind: "race-plugin", Plugins: []string{"p1 2", "p9 missing", "p3 1"}})
 	for _, p := range pplan {
 		var rec func(i int, cur []string)
 		rec = func(i int, cur []string) {
@@ -620,7 +657,7 @@ func init() {
 		Run: func(c Case) engine.Result { return engine.SafeRun(func() engine.Result { return run(c) }) },
 		Init: func(tier string) {
 			curTier = tier
-			sim.InstallStub()
+			sim.InstallStub().Respond = esiRespond
 			if d := os.Getenv("VERIF_PLUGIN_DIR"); d != "" {
 				os.Setenv("PATH", d+":"+os.Getenv("PATH"))
 			}
